@@ -11,8 +11,8 @@ CONSTANTS
   IngestPaths = {"msgp", "map"}
   Crate <- mc_Crate
   Variants = {1}
+  DecideHows = {"timer", "eject"}
   CacheNested = TRUE
 CHECK_DEADLOCK FALSE
 INVARIANTS TypeOK C20ExactlyClient C20BufferedUntouched C20OnlyDocumented C20Forwarding MemoSound MissingSound
 PROPERTIES C20ReadsArePure C20Monotone
-VIEW View
